@@ -513,7 +513,8 @@ static int expected(const mjModel* m, mjData* d, int i, mjtNum* e, mjtNum* scl, 
       if (n < 1e-9 || fabs(dist - c) < 1e-9) return 0;
       int found = dist < c;
       if (type == mjSENS_GEOMDIST) { e[0] = found ? dist : c; return 1; }
-      if (type == mjSENS_GEOMNORMAL) { for (int k = 0; k < 3; k++) e[k] = found ? t[k] / n : 0; return 3; }
+      // documented: from the surface point of geom1 to the surface point of geom2, i.e. opposite to the centroid direction under penetration
+      if (type == mjSENS_GEOMNORMAL) { if (fabs(dist) < 1e-9) return 0; for (int k = 0; k < 3; k++) e[k] = found ? (dist < 0 ? -1 : 1) * t[k] / n : 0; return 3; }
       for (int k = 0; k < 3; k++) { e[k] = found ? d->geom_xpos[3 * id + k] + m->geom_size[3 * id] * t[k] / n : 0; e[3 + k] = found ? d->geom_xpos[3 * rid + k] - m->geom_size[3 * rid] * t[k] / n : 0; }
       return 6;
     }
